@@ -27,6 +27,14 @@ def _case(i):
         forced_stdin = rng.choice(gen.MULTILINE) if rng.random() < 0.8 else None
     elif i % 12 == 9:
         name, prog = 'tmpl:forward_jump', gen.tmpl_forward_jump(rng)
+    elif i % 24 == 23:
+        name, prog = 'tmpl:far_stacks', gen.tmpl_far_stacks(rng)
+        if rng.random() < 0.5:
+            prog = gen.epilogue(rng, prog)
+    elif i % 24 == 11:
+        name, prog = 'tmpl:zoo', gen.tmpl_zoo(rng)
+        if rng.random() < 0.5:
+            prog = gen.epilogue(rng, prog)
     elif i % 24 == 15:
         name, prog = 'tmpl:first_command_source', gen.tmpl_first_command_source(rng)
     elif i % 24 == 3:
